@@ -2225,3 +2225,9 @@ V(id='c16-operand-rounded-to-prec', prop='C16', file='mpmath/ctx_iv.py',
 V(id='c16-benign-operand-ceiling', prop='C16', file='mpmath/ctx_iv.py',
   old="            v = convert_mpf_(t, 0, round_floor)\n", new="            v = convert_mpf_(t, 0, round_ceiling)\n",
   expect='silent')
+
+# ---- C02 U-R1 (fix ed5c1c8): exact-accumulation window of mpf_sum ----
+V(id='c02-sum-window-two-prec', prop='C02', file='mpmath/libmp/libmpf.py',
+  old="    max_extra_prec = prec*4 or 1000000  # XXX", new="    max_extra_prec = prec*2 or 1000000  # XXX", expect='fire:U-R1:mpf_sum')
+V(id='c02-benign-sum-window-wider', prop='C02', file='mpmath/libmp/libmpf.py',
+  old="    max_extra_prec = prec*4 or 1000000  # XXX", new="    max_extra_prec = 8*prec or 1000000  # XXX", expect='silent')
